@@ -6,7 +6,7 @@ from common import sh2
 LEVEL = "proof"
 # further theorem files (HEVC); each is rebuilt, re-checked and axiom-audited like C15Theorems.v
 EXTRA_THEOREM_FILES = ["C15HevcTheorems.v", "C15HevcSliceTheorems.v", "C15HevcConfTheorems.v", "C15InitTheorems.v",
-                       "C15TieTheorems.v"]
+                       "C15TieTheorems.v", "C15Hevc2Theorems.v"]
 MANIFEST = {
     "technique": "Coq proof (parser model applied to an independent serialiser of the standard's syntax) + differential "
                  "correspondence: the extracted serialiser generates NAL units / configuration records from random field values, "
@@ -65,6 +65,25 @@ def build(ctx):
     return exe, model
 
 
+def run_model_parallel(model, lines, k=4):
+    """The extracted model driver checks each observation line independently: the lines are dealt to k
+    driver processes (line i to process i mod k) and the verdict lines are put back in input order."""
+    from concurrent.futures import ThreadPoolExecutor
+    chunks = [lines[i::k] for i in range(k)]
+    with ThreadPoolExecutor(max_workers=k) as ex:
+        outs = list(ex.map(lambda c: common.run_model(model, "\n".join(c) + "\n") if c else [], chunks))
+    res = []
+    for i in range(len(lines)):
+        o = outs[i % k]
+        j = i // k
+        if j < len(o):
+            res.append(o[j])
+    extra = sum(len(o) for o in outs) - len(res)
+    if extra or len(res) != len(lines):
+        raise common.CheckError("model driver returned %d verdicts for %d observation lines" % (len(res) + extra, len(lines)))
+    return res
+
+
 def run(ctx):
     ctx.cov["trusted_base"] = common.TRUSTED_BASE_COMMON + [
         "spec: coq/c15/C15Spec.v — serialisers written by hand from the syntax tables of ISO/IEC 14496-10 / 23008-2, "
@@ -121,7 +140,7 @@ def run(ctx):
     if rc != 0:
         raise common.CheckError("harness corr failed: " + e[-1000:])
     lines = obs.splitlines()
-    res = common.run_model(model, obs)
+    res = run_model_parallel(model, lines)
     mism = [l for l in res if not l.startswith("OK ")]
     distinct = len(set(l.split("\t")[3] for l in lines if l.count("\t") >= 7))
     captured = sum(1 for l in lines if l.split("\t")[1].startswith("c"))
